@@ -228,22 +228,44 @@ func searchTest(cond ssa.Value, pol bool) (coll ssa.Value, pred *ssa.Function, f
 
 // trueGuardSets: for a predicate function, one guard set per way it can return true (the guards of the return plus,
 // for a non-constant result, the result itself being true, looked through && / || lowering).
-func (c *Ctx) trueGuardSets(pred *ssa.Function) [][]guard {
+func (c *Ctx) trueGuardSets(pred *ssa.Function) [][]guard { return c.resultGuardSets(pred, true) }
+
+// resultGuardSets: one guard set per way the boolean function can return `want`.
+func (c *Ctx) resultGuardSets(pred *ssa.Function, want bool) [][]guard {
 	fi := c.info(pred)
 	var out [][]guard
 	for _, ret := range returnsOf(pred) {
 		if len(ret.Results) != 1 {
 			continue
 		}
-		if b, isC := constBool(ret.Results[0]); isC && !b {
+		if b, isC := constBool(ret.Results[0]); isC && b != want {
 			continue
 		}
 		gs := append([]guard{}, fi.necessaryGuards(ret.Block())...)
 		if _, isC := ret.Results[0].(*ssa.Const); !isC {
-			cond, pol := normCond(ret.Results[0], true)
+			cond, pol := normCond(ret.Results[0], want)
 			gs = append(gs, guard{edge{ret.Block(), 0}, cond, pol})
 		}
 		out = append(out, fi.expandGuards(gs))
+	}
+	return out
+}
+
+// closuresOf: f and the function literals made in it (transitively).
+func closuresOf(f *ssa.Function) []*ssa.Function {
+	out := []*ssa.Function{f}
+	seen := map[*ssa.Function]bool{f: true}
+	for i := 0; i < len(out); i++ {
+		for _, b := range out[i].Blocks {
+			for _, in := range b.Instrs {
+				if mc, ok := in.(*ssa.MakeClosure); ok {
+					if g, _ := mc.Fn.(*ssa.Function); g != nil && !seen[g] && len(g.Blocks) > 0 {
+						seen[g] = true
+						out = append(out, g)
+					}
+				}
+			}
+		}
 	}
 	return out
 }
@@ -1286,6 +1308,42 @@ func (fi *fnInfo) feasibleAvoiding(a *ssa.BasicBlock) map[*ssa.BasicBlock]bool {
 	r := fi.feasibleReach(nil, a)
 	fi.reachNoBlock[a] = r
 	return r
+}
+
+// feasiblyReaches: some feasible path that starts by taking edge e reaches block target (phi bindings and repeated conditions
+// are followed along the path; what dominates the edge is assumed).
+func feasiblyReaches(fi *fnInfo, e edge, target *ssa.BasicBlock) bool {
+	ps := newPathStateFor(fi.fn).seedFromGuards(e.from)
+	_, _, next, feasible := ps.branch(e.from, e.idx)
+	if !feasible {
+		return false
+	}
+	seen := map[string]bool{}
+	found := false
+	var dfs func(b *ssa.BasicBlock, ps *pathState)
+	dfs = func(b *ssa.BasicBlock, ps *pathState) {
+		if found {
+			return
+		}
+		if b == target {
+			found = true
+			return
+		}
+		k := fmt.Sprintf("%d|%s", b.Index, ps.key())
+		if seen[k] {
+			return
+		}
+		seen[k] = true
+		for i, s := range b.Succs {
+			_, _, nps, ok := ps.branch(b, i)
+			if !ok {
+				continue
+			}
+			dfs(s, nps.enter(s, b))
+		}
+	}
+	dfs(e.to(), next.enter(e.to(), e.from))
+	return found
 }
 
 // seedFromGuards adds what the conditions that dominate block b say (nil-ness of tested values, outcomes of repeatable
